@@ -59,6 +59,7 @@ func runC17(c *Ctx) {
 		}
 		c17Run(c, cs, i)
 	}
+	c17Lines(c)
 }
 
 func c17Run(c *Ctx, cs c17Case, idx int) {
